@@ -605,7 +605,12 @@ pub fn main(opts: &Opts) -> ! {
     let (mut violations, known) = triage("C12", opts.seed, &res.failures, &oracle, 3);
     // calibration
     let t0 = std::time::Instant::now();
-    let cals = calibration_cfgs(opts.seed, big);
+    let mut cals = calibration_cfgs(opts.seed, big);
+    if big {
+        // thorough: the same six shapes again with other codes and random streams
+        cals.extend(calibration_cfgs(dstsim::keyed(opts.seed, &[1]), big));
+        cals.extend(calibration_cfgs(dstsim::keyed(opts.seed, &[2]), big));
+    }
     let stop = std::sync::atomic::AtomicBool::new(false);
     let cal_results = par_map(cals.len() as u64, opts.threads, None, &stop, |i| {
         let cfg = &cals[i as usize];
